@@ -5,15 +5,15 @@
    replaces it, completion needs the outer and the latest inner to have
    completed, the first error of the outer or of the latest inner ends it. *)
 From RxVerif Require Import Base.Prelude Ops.Machine Ops.Multi Ops.MultiFacts Ops.RunLemmas
-  Ops.Combinators Ops.MergeFacts Ops.SwitchSpecFacts Ops.SwitchInvFacts.
+  Ops.Combinators Ops.MergeFacts Ops.SwitchSpecFacts Ops.SwitchInvFacts Ops.SwitchLiveFacts.
 
 Theorem C12_switch_refines_spec : forall A (mapper : A -> nat -> res unit) (ins : list (Z * inp A)),
   temitted (fst (run (x_switch_map mapper) ins)) = switch_spec mapper true 0 false 1 ins.
 Proof. exact @switch_refines_spec. Qed.
 Print Assumptions C12_switch_refines_spec.
 
-(* at most the outer and one inner are ever subscribed: the runner state reached
-   from the specification's states *)
+(* a fact about the DEFINITION switch_live (the list [outer?] ++ [latest?]) only; the statement
+   about the runner state reached by [run] is C12_run_at_most_outer_and_latest below *)
 Theorem C12_at_most_one_inner_subscribed : forall ol latest has,
   (length (switch_live ol latest has) <= 2)%nat
   /\ (forall k, In k (switch_live ol latest has) -> k = 0%nat \/ k = latest).
@@ -69,6 +69,23 @@ Theorem C12_new_inner_replaces_previous : forall A (mapper : A -> nat -> res uni
      [OUnsub (S l0); OSub (S (S l0))]).
 Proof. exact @switch_new_inner_replaces_previous. Qed.
 Print Assumptions C12_new_inner_replaces_previous.
+
+(* RUN-LEVEL: after EVERY input sequence, for every mapper, the subscriptions the runner holds are
+   at most two, pairwise distinct, and each is the outer (0) or the LATEST inner received so far
+   ([sw_latest_after] = the operator's counter of inners after these inputs) -- never an older inner *)
+Theorem C12_run_at_most_outer_and_latest : forall A (mapper : A -> nat -> res unit) (ins : list (Z * inp A)),
+  (length (r_live (snd (run (x_switch_map mapper) ins))) <= 2)%nat
+  /\ NoDup (r_live (snd (run (x_switch_map mapper) ins)))
+  /\ forall k, In k (r_live (snd (run (x_switch_map mapper) ins))) ->
+       k = 0%nat \/ (k = sw_latest_after mapper ins /\ k <> 0%nat).
+Proof. exact @switch_run_at_most_outer_and_latest. Qed.
+Print Assumptions C12_run_at_most_outer_and_latest.
+Example C12_witness_live :
+  let ins := [(0, ISrc 0%nat (Next 1)); (0, ISrc 1%nat (Next 10)); (0, ISrc 0%nat (Next 2));
+              (0, ISrc 1%nat (Next 11)); (0, ISrc 2%nat (Next 20))] in
+  r_live (snd (run (x_switch_map (fun _ _ => Ok tt)) ins)) = [0%nat; 2%nat]
+  /\ sw_latest_after (fun (_ : Z) _ => Ok tt) ins = 2%nat.
+Proof. vm_compute. split; reflexivity. Qed.
 
 Example C12_witness :
   temitted (fst (run (x_switch_map (fun _ _ => Ok tt))
